@@ -180,7 +180,7 @@ variable {{ε : Type}} [Sub ε] [OfNat ε 1] [OfNat ε 2]
 """
 
 
-def translate_kernels(src_path):
+def translate_kernels(src_path, info=None):
   src = open(src_path).read()
   tree = ast.parse(src)
   out = [HEADER.format(src='device_kit/functions.py', sha=hashlib.sha256(src.encode()).hexdigest()[:16])]
@@ -220,6 +220,8 @@ def translate_kernels(src_path):
         siblings[(node.name, m)] = (lname, kinds, tr.uses_pow, tr.uses_cast)
         units.append((lname, where))
   out += ["end", "end DK.Gen", ""]
+  if info is not None:
+    info['siblings'] = dict(siblings)      # (class, method) -> (lean name, kinds, uses_pow, uses_cast), for vk/translate_vec.py
   return '\n'.join(out), units, fallback
 
 
@@ -243,9 +245,9 @@ def regenerate(repo=None):
 
 
 def regenerate_all(repo=None):
-  """every generated Lean file (kernels now; class table / validators when their translators exist)."""
+  """every generated Lean file: scalar kernels, class table, validators, vector method bodies (vk/translate_vec.py)."""
   out = regenerate(repo)
-  for modname in ('translate_classes', 'translate_validators'):
+  for modname in ('translate_classes', 'translate_validators', 'translate_vec'):
     try:
       mod = __import__('vk.' + modname, fromlist=['regenerate'])
     except ImportError:
@@ -254,6 +256,9 @@ def regenerate_all(repo=None):
     out['changed'] = out['changed'] or extra.get('changed', False)
     out['t1_units'] += extra.get('t1_units', [])
     out['t1_fallback_units'] += extra.get('t1_fallback_units', [])
+    for k, v in extra.items():
+      if k not in ('changed', 't1_units', 't1_fallback_units'):
+        out[k] = v
   return out
 
 
